@@ -25,6 +25,21 @@
 (*               (every level of a chain of globals is a level of Go        *)
 (*               recursion; as coded no depth cap applies)   G_GLOBDEPTH    *)
 (*                                                                          *)
+(*   "decode"    cursor.go Decode: nested decoders (form XObjects through    *)
+(*               /Resources, Type 3 functions, colour space alternates,      *)
+(*               patterns, Type 3 fonts, action /Next, UseCMap ...) thread   *)
+(*               one CycleCheck path and share the Extractor's cache; a      *)
+(*               decoder either gives up at the first failing child          *)
+(*               ("strict") or skips it ("perm")      G_SEEN, G_DEPTH, cache *)
+(*   "fields"    annotation/decode/field.go fieldTreeDecoder: /Kids of the   *)
+(*               interactive form, partitioned into sub-fields and widgets,  *)
+(*               one global seen-set on top of Decode          G_SEEN        *)
+(*   "parents"   field.go inheritedFromChain: the /Parent chain of a merged  *)
+(*               field/widget reached from a page            G_SEEN (visited)*)
+(*   "objwalk"   walker/walker.go walkObject: every object once (visited);   *)
+(*               a chain of references is as deep a Go recursion as it is    *)
+(*               long - as coded no depth cap applies     G_SEEN, G_WALKDEPTH*)
+(*                                                                          *)
 (* A wiring is (kind[n], a[n], b[n]) for every node n in 1..N: what the     *)
 (* parser finds at the object (its type) and two slots whose meaning        *)
 (* depends on the walker.  Slot values: 0 = absent, 1..N = that object,     *)
@@ -50,7 +65,8 @@ CONSTANTS N,          \* objects
           MaxChain,   \* maxFilterChainLength (8 in the code)
           StackCap,   \* beyond this the Go stack is considered exhausted
           G_SEEN, G_DEPTH, G_SCALAR, G_STMFIRST, G_CHAIN,
-          G_GLOBDEPTH \* the JBIG2Globals recursion is under the depth cap (as coded: it is not)
+          G_GLOBDEPTH, \* the JBIG2Globals recursion is under the depth cap (before de83502 it was not)
+          G_WALKDEPTH  \* walker.walkObject is under a depth cap (as coded: it is not)
 
 Nodes    == 1..N
 Absent   == 0
@@ -83,6 +99,10 @@ Kinds ==
     [] Walker = "outline"  -> {"item", "other"}
     [] Walker = "nametree" -> {"inner", "leaf", "other"}
     [] Walker = "filters"  -> {"plain", "jbig2", "max", "long", "other"}
+    [] Walker = "decode"   -> {"strict", "perm", "leaf", "other"}
+    [] Walker = "fields"   -> {"field", "widget", "other"}
+    [] Walker = "parents"  -> {"field", "other"}
+    [] Walker = "objwalk"  -> {"dict", "leaf"}
 
 \* slot a
 DomA(k) ==
@@ -95,6 +115,10 @@ DomA(k) ==
     [] Walker = "outline"  -> IF k = "item" THEN 0..Root ELSE {Absent}     \* /First
     [] Walker = "nametree" -> IF k = "inner" THEN 0..Dangling ELSE {Absent} \* /Kids[0]
     [] Walker = "filters"  -> IF k = "jbig2" THEN 0..Dangling ELSE {Absent} \* /JBIG2Globals
+    [] Walker = "decode"   -> IF k \in {"strict", "perm"} THEN 0..Dangling ELSE {Absent} \* first child
+    [] Walker = "fields"   -> IF k = "field" THEN 0..Dangling ELSE {Absent}  \* /Kids[0]
+    [] Walker = "parents"  -> IF k = "field" THEN 0..Dangling ELSE {Absent}  \* /Parent
+    [] Walker = "objwalk"  -> IF k = "dict" THEN 0..Dangling ELSE {Absent}   \* first entry
 \* slot b
 DomB(k) ==
   CASE Walker = "resolve"  -> {Absent}
@@ -105,6 +129,10 @@ DomB(k) ==
     [] Walker = "outline"  -> IF k = "item" THEN 0..Root ELSE {Absent}     \* /Next
     [] Walker = "nametree" -> IF k = "inner" THEN 0..Dangling ELSE {Absent} \* /Kids[1]
     [] Walker = "filters"  -> {Absent}
+    [] Walker = "decode"   -> IF k \in {"strict", "perm"} THEN 0..Dangling ELSE {Absent} \* second child
+    [] Walker = "fields"   -> IF k = "field" THEN 0..Dangling ELSE {Absent}  \* /Kids[1]
+    [] Walker = "parents"  -> {Absent}
+    [] Walker = "objwalk"  -> IF k = "dict" THEN 0..Dangling ELSE {Absent}   \* second entry
 
 Edges == Cardinality({n \in Nodes : a[n] # Absent}) + Cardinality({n \in Nodes : b[n] # Absent})
 
@@ -118,6 +146,11 @@ Bound ==
     [] Walker = "outline"  -> N + 1
     [] Walker = "nametree" -> 1 + Edges
     [] Walker = "filters"  -> N + 1
+    \* a decoder that fails is not cached: it may be fetched again through every edge that leads to it
+    [] Walker = "decode"   -> 1 + 2 * Edges * N
+    [] Walker = "fields"   -> 1 + 2 * Edges
+    [] Walker = "parents"  -> N + 1
+    [] Walker = "objwalk"  -> 1 + Edges
 WorkCap == Bound + 1
 Tick(w) == IF w < WorkCap THEN w + 1 ELSE w
 Sat(d)  == IF d <= MaxDepth THEN d + 1 ELSE d      \* depth counter saturates once past the cap
@@ -456,6 +489,155 @@ FiltersOpen == /\ phase = "walk" /\ Walker = "filters"
                /\ UNCHANGED <<wiring, wired, start, ret>>
 FiltersNext == FiltersBegin \/ FiltersOpen
 
+
+(* ------------------------------------------------------------------------ *)
+(* "decode": cursor.go Decode - nested decoders share one path and a cache  *)
+(* ------------------------------------------------------------------------ *)
+\* frames: decoder of node n about to look at child i (1, 2; 3 = done) with
+\* the CycleCheck path p.  seen is the Extractor's cache (nodes decoded with
+\* success), ret the result of the decoder that just returned.
+FDec(n, i, p) == Frame("dec", n, FALSE, FALSE, p, i, 0)
+\* what Decode(c, Reference(x), ...) does before it calls the decoder
+Enter(x, p) == IF x \in seen THEN "hit"                                        \* cacheGet
+               ELSE IF G_SEEN /\ x \in p THEN "refuse"                        \* path.step: ErrCycle
+               ELSE IF G_DEPTH /\ Cardinality(p) + 1 > MaxDepth THEN "refuse" \* path.step: ErrDepth
+               ELSE IF x = Dangling THEN "bad"                                \* Get gives nil: "missing ..."
+               ELSE IF kind[x] = "other" THEN "bad"                           \* wrong type
+               ELSE IF kind[x] = "leaf" THEN "leaf"
+               ELSE "push"
+Fetches(e) == e \in {"bad", "leaf", "push"}
+DecBegin == /\ phase = "wire" /\ wired = N /\ Walker = "decode"
+            /\ \E s \in Nodes :
+                 /\ start' = s
+                 /\ LET e == Enter(s, {}) IN
+                    /\ work' = IF Fetches(e) THEN Tick(work) ELSE work
+                    /\ IF e = "push" THEN stack' = <<FDec(s, 1, {s})>> /\ mode' = "call" /\ UNCHANGED <<ret, seen>>
+                       ELSE /\ stack' = <<>> /\ mode' = "ret"
+                            /\ ret' = IF e \in {"leaf", "hit"} THEN "ok" ELSE "err"
+                            /\ seen' = IF e = "leaf" THEN seen \cup {s} ELSE seen
+            /\ phase' = "walk"
+            /\ UNCHANGED <<wiring, wired, cur, depth, out>>
+DecGuard == phase = "walk" /\ Walker = "decode"
+\* the decoder on top of the stack turns to its next child
+DecChild == /\ DecGuard /\ mode = "call" /\ Len(stack) > 0 /\ Len(stack) <= StackCap /\ Top.i <= 2
+            /\ LET f == Top
+                   x == IF f.i = 1 THEN a[f.n] ELSE b[f.n]
+                   adv == Push(Pop, FDec(f.n, f.i + 1, f.path))
+               IN IF x = Absent THEN stack' = adv /\ UNCHANGED <<mode, ret, seen, work>>
+                  ELSE LET e == Enter(x, f.path) IN
+                       /\ work' = IF Fetches(e) THEN Tick(work) ELSE work
+                       /\ seen' = IF e = "leaf" THEN seen \cup {x} ELSE seen
+                       /\ IF e = "push" THEN stack' = Push(adv, FDec(x, 1, f.path \cup {x})) /\ UNCHANGED <<mode, ret>>
+                          ELSE IF e \in {"hit", "leaf"} THEN stack' = adv /\ UNCHANGED <<mode, ret>>
+                          \* the child failed: a strict decoder gives up, a permissive one goes on
+                          ELSE IF kind[f.n] = "strict" THEN stack' = Pop /\ mode' = "ret" /\ ret' = "err"
+                          ELSE stack' = adv /\ UNCHANGED <<mode, ret>>
+            /\ UNCHANGED <<wiring, wired, phase, start, cur, depth, out>>
+\* all children done: the value is published in the cache
+DecDone == /\ DecGuard /\ mode = "call" /\ Len(stack) > 0 /\ Top.i > 2
+           /\ seen' = seen \cup {Top.n} /\ stack' = Pop /\ mode' = "ret" /\ ret' = "ok"
+           /\ UNCHANGED <<wiring, wired, phase, start, cur, depth, work, out>>
+\* a nested decoder returned
+DecRet == /\ DecGuard /\ mode = "ret" /\ Len(stack) > 0
+          /\ IF ret = "err" /\ kind[Top.n] = "strict" THEN stack' = Pop /\ UNCHANGED <<mode, ret>>
+             ELSE mode' = "call" /\ UNCHANGED <<stack, ret>>
+          /\ UNCHANGED <<wiring, wired, phase, start, cur, depth, seen, work, out>>
+DecEnd == /\ DecGuard /\ mode = "ret" /\ Len(stack) = 0
+          /\ Finish(<<ret>>)
+          /\ UNCHANGED <<wiring, wired, start, mode, cur, depth, stack, seen, ret, work>>
+DecOverflow == /\ DecGuard /\ mode = "call" /\ Len(stack) > StackCap
+               /\ Overflow
+               /\ UNCHANGED <<wiring, wired, start, mode, cur, depth, stack, seen, ret, work, out>>
+DecodeNext == DecBegin \/ DecChild \/ DecDone \/ DecRet \/ DecEnd \/ DecOverflow
+
+(* ------------------------------------------------------------------------ *)
+(* "fields": the field tree of the interactive form (/Fields = [1 0 R])     *)
+(* ------------------------------------------------------------------------ *)
+\* decodeNode looks at every kid once to tell sub-fields from widgets (kids
+\* that are the node itself, repeated, missing or no dictionaries drop out);
+\* a node with sub-fields is a group and recurses into those not seen yet, a
+\* node without is a terminal field and decodes its widgets not seen yet.
+\* p is the CycleCheck path (it ends in n): a kid on it cannot be resolved
+\* (ErrCycle, taken for a missing kid)
+KidSeq(n, p) == LET x == a[n] y == b[n]
+                    ok(z) == z \in Nodes /\ z \notin p /\ kind[z] # "other"
+                IN (IF ok(x) THEN <<x>> ELSE <<>>) \o (IF ok(y) /\ y # x THEN <<y>> ELSE <<>>)
+Looked(n) == Cardinality(({a[n], b[n]} \ {Absent, n}))          \* kids fetched for the partition
+SubFields(n, p) == SelectSeq(KidSeq(n, p), LAMBDA z : kind[z] = "field")
+Widgets(n, p)   == SelectSeq(KidSeq(n, p), LAMBDA z : kind[z] = "widget")
+IsGroup(n, p)   == Len(SubFields(n, p)) > 0
+FFld(n, i, p) == Frame("fld", n, FALSE, FALSE, p, i, 0)
+RepTick(w, k) == IF w + k < WorkCap THEN w + k ELSE WorkCap
+FieldsBegin == /\ phase = "wire" /\ wired = N /\ Walker = "fields"
+               /\ start' = 1 /\ seen' = {1} /\ phase' = "walk" /\ mode' = "call"
+               \* decodeRoots: a root that is no dictionary is dropped
+               /\ IF kind[1] = "field" THEN stack' = <<FFld(1, 1, {1})>> /\ work' = RepTick(work, 1 + Looked(1))
+                  ELSE stack' = <<>> /\ work' = Tick(work)
+               /\ UNCHANGED <<wiring, wired, cur, depth, ret, out>>
+FieldsStep == /\ phase = "walk" /\ Walker = "fields" /\ Len(stack) > 0 /\ Len(stack) <= StackCap
+              /\ LET f == Top n == f.n
+                     todo == IF IsGroup(n, f.path) THEN SubFields(n, f.path) ELSE Widgets(n, f.path)
+                 IN IF f.i > Len(todo)
+                    THEN /\ stack' = Pop
+                         /\ out' = IF IsGroup(n, f.path) THEN out ELSE Emit(out, n)      \* a terminal field
+                         /\ UNCHANGED <<seen, work>>
+                    ELSE LET x == todo[f.i] adv == Push(Pop, FFld(n, f.i + 1, f.path)) IN
+                         IF G_SEEN /\ x \in seen THEN stack' = adv /\ UNCHANGED <<seen, work, out>>
+                         \* without the global set the path of Decode still refuses an ancestor
+                         ELSE IF x \in f.path THEN stack' = Pop /\ UNCHANGED <<seen, work, out>>
+                         ELSE /\ seen' = seen \cup {x} /\ UNCHANGED out
+                              /\ IF kind[x] = "widget" THEN stack' = adv /\ work' = Tick(work)
+                                 ELSE stack' = Push(adv, FFld(x, 1, f.path \cup {x})) /\ work' = RepTick(work, 1 + Looked(x))
+              /\ UNCHANGED <<wiring, wired, phase, start, mode, cur, depth, ret>>
+FieldsDone == /\ phase = "walk" /\ Walker = "fields" /\ Len(stack) = 0
+              /\ phase' = "done"
+              /\ UNCHANGED <<wiring, wired, start, mode, cur, depth, stack, seen, ret, work, out>>
+FieldsOverflow == /\ phase = "walk" /\ Walker = "fields" /\ Len(stack) > StackCap
+                  /\ Overflow
+                  /\ UNCHANGED <<wiring, wired, start, mode, cur, depth, stack, seen, ret, work, out>>
+FieldsNext == FieldsBegin \/ FieldsStep \/ FieldsDone \/ FieldsOverflow
+
+(* ------------------------------------------------------------------------ *)
+(* "parents": inheritedFromChain, the /Parent chain with its visited set    *)
+(* ------------------------------------------------------------------------ *)
+ParentsBegin == /\ phase = "wire" /\ wired = N /\ Walker = "parents"
+                /\ start' = 1 /\ cur' = IF kind[1] = "field" THEN a[1] ELSE Absent
+                /\ seen' = {} /\ phase' = "walk"
+                /\ UNCHANGED <<wiring, wired, mode, depth, stack, ret, work, out>>
+ParentsStep == /\ phase = "walk" /\ Walker = "parents"
+               /\ IF cur = Absent \/ (G_SEEN /\ cur \in seen) THEN phase' = "done" /\ UNCHANGED <<cur, seen, work, out>>
+                  ELSE /\ seen' = seen \cup {cur} /\ work' = Tick(work)
+                       /\ IF cur = Dangling \/ kind[cur] = "other" THEN phase' = "done" /\ UNCHANGED <<cur, out>>
+                          ELSE cur' = a[cur] /\ out' = Emit(out, cur) /\ UNCHANGED phase
+               /\ UNCHANGED <<wiring, wired, start, mode, depth, stack, ret>>
+ParentsNext == ParentsBegin \/ ParentsStep
+
+(* ------------------------------------------------------------------------ *)
+(* "objwalk": walker.walkObject from the catalog (its only entry: node 1)   *)
+(* ------------------------------------------------------------------------ *)
+FObj(n, i) == Frame("obj", n, FALSE, FALSE, {}, i, 0)
+ObjBegin == /\ phase = "wire" /\ wired = N /\ Walker = "objwalk"
+            /\ start' = 1 /\ seen' = {1} /\ work' = Tick(work) /\ out' = <<1>>
+            /\ stack' = <<FObj(1, 1)>> /\ phase' = "walk"
+            /\ UNCHANGED <<wiring, wired, mode, cur, depth, ret>>
+ObjStep == /\ phase = "walk" /\ Walker = "objwalk" /\ Len(stack) > 0
+           /\ LET f == Top n == f.n IN
+              IF kind[n] = "leaf" \/ f.i > 2 THEN stack' = Pop /\ UNCHANGED <<seen, work, out, phase>>
+              ELSE LET x == IF f.i = 1 THEN a[n] ELSE b[n]
+                       adv == Push(Pop, FObj(n, f.i + 1))
+                   IN IF x = Absent \/ (G_SEEN /\ x \in seen) THEN stack' = adv /\ UNCHANGED <<seen, work, out, phase>>
+                      ELSE IF x = Dangling THEN stack' = adv /\ seen' = seen \cup {x} /\ work' = Tick(work) /\ UNCHANGED <<out, phase>>
+                      \* a depth cap would refuse here; as coded every reference is one more level of recursion
+                      ELSE IF G_WALKDEPTH /\ Len(stack) >= MaxDepth THEN stack' = adv /\ UNCHANGED <<seen, work, out, phase>>
+                      ELSE IF Len(stack) >= StackCap THEN Overflow /\ UNCHANGED <<stack, seen, work, out>>
+                      ELSE /\ seen' = seen \cup {x} /\ work' = Tick(work) /\ out' = Emit(out, x)
+                           /\ stack' = Push(adv, FObj(x, 1)) /\ UNCHANGED phase
+           /\ UNCHANGED <<wiring, wired, start, mode, cur, depth, ret>>
+ObjDone == /\ phase = "walk" /\ Walker = "objwalk" /\ Len(stack) = 0
+           /\ phase' = "done"
+           /\ UNCHANGED <<wiring, wired, start, mode, cur, depth, stack, seen, ret, work, out>>
+ObjNext == ObjBegin \/ ObjStep \/ ObjDone
+
 (* ------------------------------------------------------------------------ *)
 Walk == CASE Walker = "resolve"  -> ResolveNext
           [] Walker = "length"   -> LengthNext
@@ -464,6 +646,10 @@ Walk == CASE Walker = "resolve"  -> ResolveNext
           [] Walker = "outline"  -> OutlineNext
           [] Walker = "nametree" -> TreeNext
           [] Walker = "filters"  -> FiltersNext
+          [] Walker = "decode"   -> DecodeNext
+          [] Walker = "fields"   -> FieldsNext
+          [] Walker = "parents"  -> ParentsNext
+          [] Walker = "objwalk"  -> ObjNext
 Next == Wire \/ Walk
 Spec == Init /\ [][Next]_vars /\ WF_vars(Next)
 
